@@ -205,18 +205,21 @@ func NewUnionSetCursor(fst SetCursor, snd SetCursor, forward bool) SetCursor {
 
 type unionSetCursor struct {
 	current []byte
+	valid   bool // tracked separately from current, as an element may be empty
 	fst     SetCursor
 	snd     SetCursor
 	forward bool
 }
 
 func (cursor *unionSetCursor) Next() {
+	cursor.valid = true
 	if !cursor.fst.IsValid() {
 		if cursor.snd.IsValid() {
 			cursor.current = cursor.snd.Current()
 			cursor.snd.Next()
 		} else {
 			cursor.current = nil // end of cursor
+			cursor.valid = false
 		}
 		return
 	}
@@ -242,7 +245,7 @@ func (cursor *unionSetCursor) Next() {
 }
 
 func (cursor *unionSetCursor) IsValid() bool {
-	return cursor.current != nil
+	return cursor.valid
 }
 
 func (cursor *unionSetCursor) Current() []byte {
